@@ -318,7 +318,7 @@ def check_rw_njobs(case, out):
 
 SUBCHECKS = [
     Sub("roundtrip", check_rw, strategy=lambda tier: rw_case(), n={"quick": 45, "thorough": 1500},
-        shards={"quick": 12, "thorough": 16}, doc="BIF / XMLBIF / UAI / NET write -> read (strings, files, save/load) returns the same variables, edges, state names and conditionals"),
+        shards={"quick": 12, "thorough": 16}, fuzz={"thorough": (3, 600)}, doc="BIF / XMLBIF / UAI / NET write -> read (strings, files, save/load) returns the same variables, edges, state names and conditionals"),
     Sub("roundtrip_big_tables", check_rw, strategy=lambda tier: rw_case(big=True), n={"quick": 2, "thorough": 20},
         shards={"quick": 2, "thorough": 4}, doc="same with tables of > 1000 entries (numpy print threshold)"),
     Sub("uai_markov", check_uai_mn, strategy=lambda tier: uai_mn_case(), n={"quick": 60, "thorough": 800},
